@@ -204,6 +204,7 @@ type c16Run struct {
 	conns    map[int]*c16Conn
 	wantPuts int
 	live     int32 // connections whose CONNECT was accepted and that have not been ended
+	clientOf map[int]*Client // broker-side Client of a harness connection, once seen registered
 }
 
 func c16Wait(cond func() bool) bool {
@@ -414,7 +415,24 @@ func (r *c16Run) do(a c16Action) (bool, int, string) {
 			tc.SetLinger(0)
 			tc.Close()
 		}
-		ok := c16Wait(func() bool { return c16Handlers() <= int(atomic.LoadInt32(&r.live)) })
+		r.mu.Lock()
+		bc := r.clientOf[a.K]
+		r.mu.Unlock()
+		ok := c16Wait(func() bool {
+			if bc != nil {
+				// c.close() is the last statement of closeAndDelSession; removeClient follows
+				if !bc.disconnected() {
+					return false
+				}
+				r.b.Lock()
+				still := r.b.clients[c16Cid] == bc
+				r.b.Unlock()
+				if still {
+					return false
+				}
+			}
+			return c16Handlers() <= int(atomic.LoadInt32(&r.live))
+		})
 		if tc != nil {
 			tc.SetLinger(0)
 		}
@@ -605,7 +623,7 @@ func c16Exec(raw json.RawMessage) interface{} {
 		return map[string]string{"error": "no-broker", "detail": fmt.Sprint(lerr)}
 	}
 	defer b.close()
-	r := &c16Run{b: b, st: st, conns: map[int]*c16Conn{}}
+	r := &c16Run{b: b, st: st, conns: map[int]*c16Conn{}, clientOf: map[int]*Client{}}
 	r.addr = "127.0.0.1:" + c16Port(b.listener.Addr())
 	defer func() {
 		r.mu.Lock()
@@ -627,6 +645,9 @@ func c16Exec(raw json.RawMessage) interface{} {
 		s.Skipped, s.Code, s.Err = skipped, code, e
 		if cur := r.registered(); cur != nil && s.Reg >= 0 {
 			seen.byK[s.Reg] = cur
+			r.mu.Lock()
+			r.clientOf[s.Reg] = cur
+			r.mu.Unlock()
 		}
 		ks := make([]int, 0, len(seen.byK))
 		for k := range seen.byK {
